@@ -88,7 +88,49 @@ def arithmetic_family(w, seed, spec):
                     fails.append(f'{na} {sym} {nb} on different structures: not rejected with ValueError')
         if len(fails) > 5:
             break
+    fails += _rectangular(seed)
     return fails
+
+
+def _rectangular(seed):
+    """tall and wide compositions and sums under scalar factors, negation, subtraction and composition with scalar
+    operators: the result keeps the operand's input and output structures and has the NumPy matrix"""
+    from furax._base.core import CompositionOperator, AdditionOperator, HomothetyOperator
+    from furax._base.diagonal import DiagonalOperator
+    from furax._base.indices import IndexOperator
+    fails = []
+    rng = np.random.default_rng(seed + 5)
+    d = lambda n: DiagonalOperator(jnp.asarray(rng.uniform(0.5, 1.5, n).astype(np.float32)), in_structure=K.S((n,)))  # noqa: E731
+    tall = IndexOperator(jnp.array([2, 0, 2, 1, 1]), in_structure=K.S((3,)))          # 3 -> 5
+    wide = IndexOperator(jnp.array([4, 0]), in_structure=K.S((5,)))                   # 5 -> 2
+    cases = {'tall composition': CompositionOperator([tall, d(3)]), 'wide composition': CompositionOperator([wide, d(5)]),
+             'tall composition of three': CompositionOperator([d(5), tall, d(3)]),
+             'tall sum': AdditionOperator([tall, CompositionOperator([tall, d(3)])]),
+             'tall plain': tall, 'wide plain': wide}
+    for name, c in cases.items():
+        m = K.dense(c)
+        sin, sout = c.in_structure(), c.out_structure()
+        hin, hout = HomothetyOperator(jnp.asarray(3., jnp.float32), sin), HomothetyOperator(jnp.asarray(3., jnp.float32), sout)
+        for sym, f, ref in (('3*c', lambda: 3 * c, 3 * m), ('c*3', lambda: c * 3, 3 * m), ('c/4', lambda: c / 4, m / 4),
+                            ('-c', lambda: -c, -m), ('H@c', lambda: hout @ c, 3 * m), ('c@H', lambda: c @ hin, 3 * m),
+                            ('c-c', lambda: c - c, 0 * m), ('c+c', lambda: c + c, 2 * m), ('2*c-c', lambda: 2 * c - c, m)):
+            r, e = _try(f)
+            if e is not None:
+                fails.append(f'{sym} for a {name} raised {type(e).__name__}: {str(e)[:60]}')
+                continue
+            if r.in_structure() != sin or r.out_structure() != sout:
+                fails.append(f'{sym} for a {name}: structures {r.in_structure()} -> {r.out_structure()}, the operand has {sin} -> {sout}')
+                continue
+            dm, e = _try(lambda: K.dense(r))
+            if e is not None:
+                fails.append(f'{sym} for a {name}: application raised {type(e).__name__}')
+            elif not K.close(dm, ref):
+                fails.append(f'{sym} for a {name}: wrong matrix')
+        for sym, f in (('H(in)@c', lambda: hin @ c), ('c@H(out)', lambda: c @ hout)):
+            r, e = _try(f)
+            if not isinstance(e, ValueError):
+                fails.append(f'{sym} for a {name}: scalar operator on the wrong side structure not rejected with ValueError')
+    return fails[:8]
 
 
 def identity_homothety_matmul(w, seed, spec):
